@@ -7,7 +7,7 @@ From Coq Require Import List NArith Permutation.
 From Coq Require Import ZArith.
 From XotV Require Import Model.Base Model.Zipper Model.Access Model.Store Model.Manip Spec.DocOrder Spec.Shape
                          Proofs.ZipperProofs Proofs.AccessProofs Proofs.StoreProofs Proofs.InvProofs Proofs.InvSteps
-                         Proofs.InvOps Proofs.InvHist Proofs.InvApi Spec.NoAdj Proofs.NoAdjOps.
+                         Proofs.InvOps Proofs.InvHist Proofs.InvApi Spec.NoAdj Proofs.NoAdjOps Proofs.NoAdjApi.
 From XotV Require Import Model.Unpretty Model.Interning Model.NsTools Model.Hist.
 Import ListNotations.
 Open Scope N_scope.
@@ -186,6 +186,15 @@ Theorem C04_no_adjacent_text_history_partial :
   forall ops, forallb plain_op ops = true -> noadj (mfinal init_state ops) /\ cons (mfinal init_state ops) = true.
 Proof. intros ops Hp. exact (noadj_history ops init_state Good_init eq_refl eq_refl Hp). Qed.
 Print Assumptions C04_no_adjacent_text_history_partial.
+
+(* the same over the calls built on the node-level API: remove_insignificant_whitespace, create_missing_prefixes,
+   deduplicate_namespaces, clone_with_prefixes ([plain_top] excludes only replace / element_wrap / element_unwrap and
+   switching consolidation off) *)
+Theorem C04_no_adjacent_text_api_history_partial :
+  forall nm ops t st, Good st -> cons st = true -> noadj st -> forallb plain_top ops = true ->
+    noadj (snd (tfinal nm (t, st) ops)) /\ cons (snd (tfinal nm (t, st) ops)) = true.
+Proof. exact noadj_tfinal. Qed.
+Print Assumptions C04_no_adjacent_text_api_history_partial.
 
 (* non-vacuity: a history in which text is appended next to text, moved between text nodes and a separating element is
    removed ends without adjacent text (the merges happen); the predicate does reject adjacent text; and with consolidation
